@@ -32,6 +32,7 @@ func isSetupFunc(fn string) bool {
 		// merging and graph building happen while loading
 		"taskfile/ast:Taskfile.Merge", "taskfile/ast:Tasks.Merge", "taskfile/ast:TaskfileGraph.Merge", "taskfile/ast:NewTaskfileGraph",
 		"taskfile/ast:Tasks.ResolveRootRefs", // called by TaskfileGraph.Merge only (after F32), on the merged root table
+		"taskfile/ast:Tasks.setDefaults",     // called by Taskfile.Merge only (fixes L8-4/5), on the included file's table while loading
 		"taskfile/ast:Include.DeepCopy", "taskfile/ast:Includes.Set", "taskfile/ast:NewIncludes",
 		// option constructors of the fingerprint package write a fresh config
 		"taskfile/ast:Platform.parseArch", "taskfile/ast:Platform.parseOsOrArch", // YAML decoding
